@@ -139,6 +139,7 @@ except Exception:
 
 NOTES = {
     'C03-identity-shared-tensor': 'deliberately not alarmed on (see meta.json: no listed property is violated; the demonstration edits a site tensor of the result in place)',
+    'C03-identity-shared-site-tensor': 'deliberately not alarmed on (same change as C03-identity-shared-tensor, proposed again in round 3; see section 6: no public operation writes into a site tensor, the demonstration does)',
     'C03-add-mps-block-dtype': 'first run: MISSED. r_C03 now builds operands of mixed entry kinds (real + complex + integer)',
     'C18-stale-matching-state': 'first run: MISSED. Added solver-reuse history cases to r_C18 and the static obligation `state_independent_of_previous_calls` (engine F, definite initialisation of instance state)',
     'C08-lanczos-real-dtype': 'first run: MISSED by C08. Added the dtype lattice (`no narrowing store`) to engine Z for the Krylov iterations and real-valued states to r_C08/r_C09/r_C10',
